@@ -182,10 +182,8 @@ func Body(c Cfg) explore.Body {
 			w.NewWire(name+".memwire", d.ToMem)
 			drv.RegisterGPU(p.ToDriver, driver.DeviceProperties{CUCount: 4, DRAMSize: 8 * BPage})
 			cps, dmas, mappers = append(cps, p), append(dmas, d), append(mappers, mp)
-			for a := gpuBase(g); a < gpuBase(g)+8*BPage; a += 997 { // sparse pattern, enough to see stray writes
-				memory[a] = byte(a*7 + 1)
-				refImg[a] = memory[a]
-			}
+			// device memory starts out non-zero everywhere (initByte); `memory` and
+			// `refImg` only hold the bytes written since
 
 			// --- what the DMA engine sends to memory
 			d.ToMem.AcceptHook(sendHook{func(m sim.Msg) {
@@ -312,7 +310,7 @@ func Body(c Cfg) explore.Body {
 				case *mem.ReadReq:
 					data := make([]byte, r.AccessByteSize)
 					for i := range data {
-						data[i] = memory[r.Address+uint64(i)]
+						data[i] = memGet(memory, r.Address+uint64(i))
 					}
 					fd.Add(mem.DataReadyRspBuilder{}.WithSrc(r.Dst).WithDst(d.ToMem.AsRemote()).WithRspTo(r.ID).WithData(data).Build(), true)
 				}
@@ -593,8 +591,8 @@ func Body(c Cfg) explore.Body {
 		}
 		sort.Slice(addrs, func(i, j int) bool { return addrs[i] < addrs[j] })
 		for _, a := range addrs {
-			if memory[a] != refImg[a] {
-				return explore.Viol("dma/memory-image-differs", "memory[%#x] = %#x, reference %#x; trace %s", a, memory[a], refImg[a], trace.String())
+			if memGet(memory, a) != memGet(refImg, a) {
+				return explore.Viol("dma/memory-image-differs", "memory[%#x] = %#x, reference %#x; trace %s", a, memGet(memory, a), memGet(refImg, a), trace.String())
 			}
 		}
 		// D2H results: a D2H job in a queue sees every earlier H2D of the same queue
@@ -653,18 +651,29 @@ func hostBytes(job int, n uint64) []byte {
 	out := make([]byte, n)
 	for i := range out {
 		out[i] = byte(0x51 + job*0x1d + i*3)
+		// long copies carry a run of 128 zero bytes (at least one whole aligned
+		// 64-byte unit is all zero wherever the copy starts): a unit that is
+		// skipped or assumed zero leaves the destination's non-zero bytes behind
+		if n >= 144 && i >= 8 && i < 136 {
+			out[i] = 0
+		}
 	}
 	return out
 }
 
 func initialByte(pa uint64, gpuBase func(int) uint64, n int, BPage uint64) (byte, bool) {
-	for g := 0; g < n; g++ {
-		b := gpuBase(g)
-		if pa >= b && pa < b+8*BPage && (pa-b)%997 == 0 {
-			return byte(pa*7 + 1), true
-		}
+	return initByte(pa), true
+}
+
+// initByte is the content of device memory before the run: never zero, so
+// that a transfer unit that is dropped or assumed zero shows.
+func initByte(pa uint64) byte { return byte(pa*7+1) | 0x80 }
+
+func memGet(m map[uint64]byte, a uint64) byte {
+	if b, ok := m[a]; ok {
+		return b
 	}
-	return 0, false
+	return initByte(a)
 }
 
 // d2hExpect is the byte a D2H job must return at index k: the last H2D that
